@@ -98,6 +98,8 @@ func (p *Program) define(name string) *Define {
 	return nil
 }
 
+var globalStrIDs = map[string]int64{}
+
 func (p *Program) strID(s string) int64 {
 	if s == "" {
 		return 0
@@ -105,7 +107,15 @@ func (p *Program) strID(s string) int64 {
 	if id, ok := p.strIDs[s]; ok {
 		return id
 	}
-	id := int64(1000 + len(p.strIDs))
+	// one numbering for all programs of a run (tag sets): the facts about constant strings are keyed by it
+	id, ok := globalStrIDs[s]
+	if !ok {
+		id = int64(1000 + len(globalStrIDs))
+		globalStrIDs[s] = id
+		if !strings.HasPrefix(s, "iface:") {
+			constStrings[id] = s
+		}
+	}
 	p.strIDs[s] = id
 	return id
 }
